@@ -419,6 +419,16 @@ func cmdCheck(args []string) {
 	}
 	if len(retry) > 0 {
 		discharge(retry, filepath.Join(workDir, "smt"), timeout*3, 16, *verbose)
+		// last resort for what is still undecided: one obligation at a time (an idle machine), each z3
+		// with three different random seeds and cvc5 - quantifier instantiation is sensitive to both
+		// load and seed, and an answer that exists should not be lost to either
+		for _, r := range retry {
+			for _, o := range r.Obls {
+				if !o.Passed() && !o.ExpectSat && (o.Status == "unknown" || o.Status == "timeout") && o.SMTPath != "" {
+					solveSeeds(o, timeout*3)
+				}
+			}
+		}
 	}
 	// 2. bounded stand-ins / sanity runs of the same contracts on the real code
 	if !*noRAC {
